@@ -10,7 +10,7 @@ claimed={
  'C04':("complete enumeration of operation x operand classes x modes executed on the real library and validated against the specification's IEEE dispatch; the outcome (ok / ErrNaN / other panic) of every event of every driver is an observed field.","4 C04"),
  'C05':("Sqrt validated against the integer-square-root specification and, independently, the squaring-only declarative predicate SqrtOK evaluated by TLC on the observed root.","4 C05"),
  'C06':("dec.mul / dec.sqr / dec.div are driven through the verif hooks at all sizes and 8 threshold assignments with dirty and poisoned buffers; TLC validates every call against the natural-number identities (exact arithmetic) and classifies it by code path; Mul/Quo through the API on the same sizes are validated against the rounding specification. At design level DecAlgo transcribes schoolbook/Karatsuba multiplication, squaring, Knuth D and recursive division statement by statement and TLC checks them exhaustively for every operand of bounded length in small bases (MC_Algo, MC_AlgoMul; the models of defects D1 and D25 must fail).","4 C06 and 8.1"),
- 'C07':("every kernel call of a structured enumeration runs the build's implementation (assembly on amd64) and the portable Go one; TLC checks both against the mathematical post-condition over the pre-state (KernelPost/ScalarPost), hence against each other; whole-library programs run under three build configurations and the event logs must be identical.","4 C07"),
+ 'C07':("every kernel call of a structured enumeration runs the build's implementation (assembly on amd64) and the portable Go one; TLC checks both against the mathematical post-condition over the pre-state (KernelPost/ScalarPost), hence against each other; whole-library programs run under three build configurations and the event logs must be identical. MC_Kernels: the word-vector primitives of the specification (the logic of the portable kernels, used by the transcribed algorithms of DecAlgo) satisfy the same post-conditions for every vector pair of bounded length in bases 10 and 100.","4 C07 and 8.1"),
  'C08':("the state invariant Canonical is evaluated by TLC on every register named by every event of long recorded histories.","4 C08"),
  'C09':("precision/mode stickiness and operand immutability are evaluated by TLC on every event: receiver attributes against the documented value, operands against the model state, unnamed registers by digest.","4 C09"),
  'C10':("refinement of a buffer-free specification: every operation instance is executed under all aliasing partitions and receiver histories; all variants are validated against the specification, and variants of one instance are compared with each other by the trace specification.","4 C10"),
